@@ -15,7 +15,8 @@
 #   thorough: every property but C20 -> ASan (libbz2 itself instrumented): since a change may relax
 #             forbid(unsafe_code), memory errors are no longer confined to the C library
 #             C01, C03, C05, C06, C13, C14, C16, C19 -> valgrind memcheck as well (uninitialised reads)
-#             C02, C04, C07, C10  -> Miri on the pure-Rust decode/model paths
+#             C02, C04, C07, C10  -> Miri on the pure-Rust decode/model paths (a lane each)
+#             C03, C08, C09, C11-C14 -> Miri, one shared lane ("rest")
 #   (the main run of every check has the guard allocator of harness/src/mon.rs; the valgrind and
 #    ASan lanes switch it off, VERIF_GUARD_ALLOC=0, so that the tools see the memory as it is)
 set -u
@@ -28,8 +29,9 @@ export CARGO_NET_OFFLINE=true
 lanes=()
 case "$TIER:$PROP" in
   quick:C05|quick:C06) lanes=(valgrind) ;;
-  thorough:C05|thorough:C06|thorough:C01|thorough:C03|thorough:C13|thorough:C14|thorough:C16|thorough:C19) lanes=(valgrind asan) ;;
-  thorough:C02|thorough:C04|thorough:C07|thorough:C10) lanes=(miri asan) ;;
+  thorough:C03|thorough:C13|thorough:C14) lanes=(valgrind asan miri) ;;
+  thorough:C05|thorough:C06|thorough:C01|thorough:C16|thorough:C19) lanes=(valgrind asan) ;;
+  thorough:C02|thorough:C04|thorough:C07|thorough:C10|thorough:C08|thorough:C09|thorough:C11|thorough:C12) lanes=(miri asan) ;;
   thorough:C20) ;;
   thorough:*) lanes=(asan) ;;
 esac
@@ -187,7 +189,9 @@ for lane in "${lanes[@]}"; do
       ;;
     miri)
       L=$(echo "$PROP" | tr A-Z a-z)
-      case "$L" in c02) CASES=1024 ;; c04) CASES=960 ;; c07) CASES=192 ;; c10) CASES=2048 ;; esac
+      case "$L" in c02) CASES=1024 ;; c04) CASES=960 ;; c07) CASES=192 ;; c10) CASES=2048 ;;
+        # the properties without a lane of their own share one (decoders, accessors, Debug, summariser, grouping / merging)
+        *) L=rest; CASES=384 ;; esac
       NSH=16
       ( cd "$ROOT/lanes/miri" && cargo +nightly miri run --offline -q -- "$L" 0 1 "$SEED" 0 ) > "$OUT/miri-build.log" 2>&1
       if ! grep -q MIRI-LANE-OK "$OUT/miri-build.log"; then
